@@ -85,18 +85,20 @@ def e2(ctx):
 
 
 def run(ctx):
-    ctx.functions += ["Scanner.scan_path", "Scanner.generate_exclude_spec/_read_gitignore/is_excluded", "Scanner._scan_file", "Scanner.DEFAULT_EXCLUDES (regexes compiled by pathspec, translated to z3)", "languages.Languages.by_name"]
+    ctx.functions += ["__main__.scan / __main__.check (exclusion option handling)", "Configuration.load", "Scanner.scan_path", "Scanner.generate_exclude_spec/_read_gitignore/is_excluded", "Scanner._scan_file", "Scanner.DEFAULT_EXCLUDES (regexes compiled by pathspec, translated to z3)", "languages.Languages.by_name"]
     ctx.assumptions += ["pathspec's match_file = 'some include-pattern's regex matches the normalised relative path' (last-match-wins with include-only patterns)", "S-fs: os.walk/open/pathlib/relpath replaced by vlib.fsstub (walk top-down, pruning honoured)",
                         "get_lexer_for_filename is real Pygments, called on the concrete pool names only", "checksums are stubbed as a function of content (A-md5)"]
     ctx.outside += ["gitignore features outside the five classes (negation, **, character classes, escapes)", "trees outside the pool family", "symbolic links"]
     e2(ctx)
     T = 300 if ctx.quick() else 1500
     jobs = []
-    combos = [(0, 0), (0, 1), (1, 0), (1, 2), (2, 0), (2, 3), (3, 1), (3, 4), (2, 5), (1, 5)] if ctx.quick() else [(c, r) for c in range(4) for r in range(6)]
+    combos = [(0, 0), (0, 1), (1, 0), (1, 2), (2, 0), (2, 3), (3, 1), (3, 4), (2, 5), (1, 5), (4, 0), (4, 2)] if ctx.quick() else [(c, r) for c in range(5) for r in range(6)]
     for c, r in combos:
         jobs.append(Job("c11.py", "h_scan", {"cfg": c, "root": r, "fix_f1": 0}, T, 60, tag=f"scan cfg{c} root#{r}", meta={"sigtag": "scan-selection", "twin": c == 0 and r == 0}))
     for f1 in ((1, 3, 5, 12) if ctx.quick() else range(1, 13)):
         jobs.append(Job("c11.py", "h_scan", {"cfg": 1, "root": 0, "fix_f1": f1}, T, 60, tag=f"scan cfg1 root#0 top-level-file#{f1}", meta={"sigtag": "scan-selection", "twin": False}))
-    ctx.bounds = {"E2": "path strings of any length (z3 string variable); one query per exclusion entry of 4 configurations", "trees": "main.py + top-level file + <D1>/m.py + <D1>/<D2>/<F3>, D1,D2 from 14 directory names, F from 13 file names (solver-chosen)",
-                  "configurations": "built-ins only | config+option+.gitignore mixes over the five pattern classes (4 configurations)", "roots": "absolute, '.', '..' from a subdirectory, relative from the parent, absolute with '..', relative with '..' from a sibling"}
+    jobs.append(Job("c11.py", "h_cli_sources", {}, T, 60, tag="exclusion sources through the CLI functions", meta={"sigtag": "exclusion-sources"}))
+    ctx.bounds["sources"] = "the real __main__.scan / __main__.check with 3 option lists x 4 .codelimit.yml contents x 2 .gitignore contents (Configuration.load real, over the in-memory FS)"
+    ctx.bounds.update({"E2": "path strings of any length (z3 string variable); one query per exclusion entry of 4 configurations", "trees": "main.py + top-level file + <D1>/m.py + <D1>/<D2>/<F3>, D1,D2 from 14 directory names, F from 13 file names (solver-chosen)",
+                  "configurations": "built-ins only | config+option+.gitignore mixes over the five pattern classes plus root-anchored /name (5 configurations)", "roots": "absolute, '.', '..' from a subdirectory, relative from the parent, absolute with '..', relative with '..' from a sibling"})
     ctx.run_xh(jobs)
